@@ -21,7 +21,7 @@ def make(ck, rnd, n, pid=PID):
     recs, metas = [], []
     for t in range(n):
         xorish = rnd.random() < 0.35       # parity logic lets every input transition through: long waveforms, overflows
-        c = gen.gen_circuit(rnd, max_gates=ck.pick(8, 14), max_ff=2, kinds=['XOR2', 'XNOR2', 'XOR3', 'XNOR3', 'XOR4', 'BUF1'] if xorish else None)
+        c = gen.parity_circuit(rnd) if rnd.random() < 0.2 else gen.gen_circuit(rnd, max_gates=ck.pick(8, 14), max_ff=2, kinds=['XOR2', 'XNOR2', 'XOR3', 'XNOR3', 'XOR4', 'BUF1'] if xorish else None)
         nl = len(c.lines)
         lanes = rnd.choice([1, 2, 3, 5])
         offgrid = rnd.random() < 0.25
